@@ -89,7 +89,7 @@ def verify_unit(u, reg):
   for ob in exits:
     # vacuity probe: some normal exit must be reachable; satisfiability with quantifiers is
     # expensive, so a small budget per exit and stop at the first witness
-    prove.check(ob, axioms, rlimit=prove.RLIMIT // 20)
+    prove.check(ob, axioms, rlimit=prove.RLIMIT // 200)
     if ob.result == 'proved':
       any_exit = 'proved'
       break
@@ -100,7 +100,7 @@ def verify_unit(u, reg):
   for ob in obls:
     if ob.expect == 'sat-any':
       continue
-    prove.check(ob, axioms, rlimit=(prove.RLIMIT // 20 if ob.expect == 'sat' else None))
+    prove.check(ob, axioms, rlimit=(prove.RLIMIT // 200 if ob.expect == 'sat' else None))
     e = by_name.setdefault(ob.name, {'name': ob.name, 'kind': ob.kind, 'text': ob.text,
                                      'instances': 0, 'result': 'proved', 'time': 0.0,
                                      'backend': set(), 'model': None, 'line': ob.line})
